@@ -1,5 +1,6 @@
 import DuneVerif.Common.Proto
 import DuneVerif.Model.C02
+import DuneVerif.Model.C02Top
 import DuneVerif.Gen.C02
 /-! line-protocol driver for C02
 
@@ -7,11 +8,12 @@ import DuneVerif.Gen.C02
     field = gf | f64 | ld | c64        (ld: the model computes in double)
     op    = solve | invert | det | fmhinv | fmhinvT
     rep   = fm | dm | diag             (diag: `<A>` lists the n diagonal entries)
-    piv   = 1 | 0
+    piv   = 1 | 0 | d                  (d: the call without the optional `doPivoting` argument)
     `<A>` row-major `[a00,a01,…]`; gf: residues; f64/ld: IEEE-754 binary64 bit patterns in decimal; c64: re,im pairs
 
-  The closed forms (n ≤ 3) come from `DV.C02.Gen` (regenerated from the source), the LU path (n ≥ 4) and
-  DiagonalMatrix from `DV.C02`.
+  Everything is computed by `DV.C02.determinant / solve / invert / fmhInvert` (Model/C02Top.lean: size dispatch
+  between the closed forms of `DV.C02.Gen`, regenerated from the source, and the LU path of Model/C02.lean) and
+  `solveDiag / invertDiag / detDiag`; the driver only parses, decides "unspecified" and prints.
 -/
 open DV DV.C02
 
@@ -32,52 +34,48 @@ def matToList {n : Nat} (A : Mat n K) : List K :=
   (List.finRange n).flatMap fun i => (List.finRange n).map fun j => A.f i j
 def vecToList {n : Nat} (v : Vec n K) : List K := (List.finRange n).map v.f
 
-/-- `DenseMatrix::determinant(doPivoting)` -/
-def detDense (piv : Bool) (absval : K → Q) : (n : Nat) → Mat n K → K
-  | 1, A => Gen.det1 (A.f 0 0)
-  | 2, A => Gen.det2 (A.f 0 0) (A.f 0 1) (A.f 1 0) (A.f 1 1)
-  | 3, A => Gen.det3 (A.f 0 0) (A.f 0 1) (A.f 0 2) (A.f 1 0) (A.f 1 1) (A.f 1 2) (A.f 2 0) (A.f 2 1) (A.f 2 2)
-  | _, A => detLU piv absval A
+/-- the `<piv>` token: `1` / `0` = explicit argument, `d` = the call without the optional argument -/
+inductive PivArg where
+  | given (p : Bool)
+  | dflt
 
-/-- `DenseMatrix::solve(x, b, doPivoting)` -/
-def solveDense (piv : Bool) (absval : K → Q) : (n : Nat) → Mat n K → Vec n K → Res (List K)
-  | 1, A, b => let r := Gen.solve1 (A.f 0 0) (b.f 0); .ok [r.x0]
-  | 2, A, b => let r := Gen.solve2 (A.f 0 0) (A.f 0 1) (A.f 1 0) (A.f 1 1) (b.f 0) (b.f 1); .ok [r.x0, r.x1]
-  | 3, A, b =>
-    let r := Gen.solve3 (A.f 0 0) (A.f 0 1) (A.f 0 2) (A.f 1 0) (A.f 1 1) (A.f 1 2) (A.f 2 0) (A.f 2 1) (A.f 2 2)
-      (b.f 0) (b.f 1) (b.f 2)
-    .ok [r.x0, r.x1, r.x2]
-  | _, A, b => match solveLU piv absval A b with
-    | .ok x => .ok (vecToList x)
-    | .fmatrixError => .fmatrixError
+def PivArg.parse : String → Option PivArg
+  | "1" => some (.given true)
+  | "0" => some (.given false)
+  | "d" => some .dflt
+  | _ => none
 
-def m2list (r : Gen.M2 K) : List K := [r.m00, r.m01, r.m10, r.m11]
-def m3list (r : Gen.M3 K) : List K := [r.m00, r.m01, r.m02, r.m10, r.m11, r.m12, r.m20, r.m21, r.m22]
+/-- `A.determinant(p)` / `A.determinant()` -/
+def detDense (pa : PivArg) (absval : K → Q) {n : Nat} (A : Mat n K) : K :=
+  match pa with
+  | .given p => determinant p absval A
+  | .dflt => determinantDefault absval A
 
-/-- `DenseMatrix::invert(doPivoting)` -/
-def invertDense (piv : Bool) (absval : K → Q) : (n : Nat) → Mat n K → Res (List K)
-  | 1, A => .ok [(Gen.invert1 (A.f 0 0)).m00]
-  | 2, A => .ok (m2list (Gen.invert2 (A.f 0 0) (A.f 0 1) (A.f 1 0) (A.f 1 1)))
-  | 3, A => .ok (m3list (Gen.invert3 (A.f 0 0) (A.f 0 1) (A.f 0 2) (A.f 1 0) (A.f 1 1) (A.f 1 2)
-      (A.f 2 0) (A.f 2 1) (A.f 2 2)))
-  | _, A => match invertLU piv absval A with
-    | .ok B => .ok (matToList B)
-    | .fmatrixError => .fmatrixError
+/-- `A.solve(x, b, p)` / `A.solve(x, b)` -/
+def solveDense (pa : PivArg) (absval : K → Q) {n : Nat} (A : Mat n K) (b : Vec n K) : Res (List K) :=
+  match (match pa with
+    | .given p => solve p absval A b
+    | .dflt => solveDefault absval A b) with
+  | .ok x => .ok (vecToList x)
+  | .fmatrixError => .fmatrixError
+
+/-- `A.invert(p)` / `A.invert()` -/
+def invertDense (pa : PivArg) (absval : K → Q) {n : Nat} (A : Mat n K) : Res (List K) :=
+  match (match pa with
+    | .given p => invert p absval A
+    | .dflt => invertDefault absval A) with
+  | .ok B => .ok (matToList B)
+  | .fmatrixError => .fmatrixError
 
 /-- `FMatrixHelp::invertMatrix` (`tr = false`) / `invertMatrix_retTransposed` (`tr = true`) -/
-def fmhInvert (tr : Bool) : (n : Nat) → Mat n K → Option (K × List K)
-  | 1, A => let r := (if tr then Gen.fmhInvertT1 (A.f 0 0) else Gen.fmhInvert1 (A.f 0 0)); some (r.1, [r.2.m00])
-  | 2, A =>
-    let r := (if tr then Gen.fmhInvertT2 (A.f 0 0) (A.f 0 1) (A.f 1 0) (A.f 1 1)
-              else Gen.fmhInvert2 (A.f 0 0) (A.f 0 1) (A.f 1 0) (A.f 1 1))
-    some (r.1, m2list r.2)
-  | 3, A =>
-    let r := (if tr then Gen.fmhInvertT3 (A.f 0 0) (A.f 0 1) (A.f 0 2) (A.f 1 0) (A.f 1 1) (A.f 1 2)
-                (A.f 2 0) (A.f 2 1) (A.f 2 2)
-              else Gen.fmhInvert3 (A.f 0 0) (A.f 0 1) (A.f 0 2) (A.f 1 0) (A.f 1 1) (A.f 1 2)
-                (A.f 2 0) (A.f 2 1) (A.f 2 2))
-    some (r.1, m3list r.2)
-  | _, _ => none
+def fmhInvertL (tr : Bool) {n : Nat} (A : Mat n K) : Option (K × List K) :=
+  (fmhInvert tr A).map fun r => (r.1, matToList r.2)
+
+/-- is pivoting in effect for this call (only used to decide whether the property fixes the behaviour) -/
+def PivArg.effective (pa : PivArg) (dflt : Bool) : Bool :=
+  match pa with
+  | .given p => p
+  | .dflt => dflt
 
 /-- does the pivoted decomposition run through (model's own verdict "A is nonsingular", n ≥ 4) -/
 def pivotedOk (absval : K → Q) {n : Nat} (A : Mat n K) : Bool :=
@@ -93,31 +91,30 @@ def isZero (a : Fp) : Bool := a.v == 0
 
 /-- model's verdict on singularity for the dense representations -/
 def gfSingular (n : Nat) (A : Mat n Fp) : Bool :=
-  if n ≤ 3 then isZero (detDense true Fp.absval n A) else !(pivotedOk Fp.absval A)
+  if 1 ≤ n ∧ n ≤ 3 then isZero (determinant true Fp.absval A) else !(pivotedOk Fp.absval A)
 
-def gfDense (op : String) (n : Nat) (piv : Bool) (A : Mat n Fp) (b : Option (Vec n Fp)) : String :=
+def gfDense (op : String) (n : Nat) (pa : PivArg) (A : Mat n Fp) (b : Option (Vec n Fp)) : String :=
   let sing := gfSingular n A
+  let closed := 1 ≤ n ∧ n ≤ 3
   match op, b with
   | "det", none =>
-    if n ≤ 3 then toString (detDense piv Fp.absval n A).v
-    else if sing then toString (detDense piv Fp.absval n A).v
-    else if piv then toString (detDense piv Fp.absval n A).v
-    else -- unpivoted: defined iff the unpivoted decomposition runs through
-      if (luDecomp false Fp.absval (detFunc : Func n Fp Fp) A (1 : Fp)).ok then toString (detDense piv Fp.absval n A).v
+    if closed ∨ sing ∨ pa.effective Gen.determinantDefaultPivoting then toString (detDense pa Fp.absval A).v
+    else -- unpivoted, nonsingular: defined iff the unpivoted decomposition runs through
+      if (luDecomp false Fp.absval (detFunc : Func n Fp Fp) A (1 : Fp)).ok then toString (detDense pa Fp.absval A).v
       else "unspecified"
   | "solve", some b =>
-    if n ≤ 3 ∧ sing then "unspecified" else
-    match solveDense piv Fp.absval n A b with
+    if closed ∧ sing then "unspecified" else
+    match solveDense pa Fp.absval A b with
     | .ok x => fpList x
     | .fmatrixError => if sing then "ERR:FMatrix" else "unspecified"
   | "invert", none =>
-    if n ≤ 3 ∧ sing then "unspecified" else
-    match invertDense piv Fp.absval n A with
+    if closed ∧ sing then "unspecified" else
+    match invertDense pa Fp.absval A with
     | .ok x => fpList x
     | .fmatrixError => if sing then "ERR:FMatrix" else "unspecified"
   | "fmhinv", none | "fmhinvT", none =>
     if sing then "unspecified" else
-    match fmhInvert (op == "fmhinvT") n A with
+    match fmhInvertL (op == "fmhinvT") A with
     | some (d, l) => toString d.v ++ " " ++ fpList l
     | none => "bad-op"
   | _, _ => "bad-op"
@@ -168,25 +165,29 @@ def invertResidOk (mag : K → Float) (n : Nat) (a b : Array K) : Bool :=
   let bound := tolOf n * normInf mag n a * normInf mag n b
   dev (mulArr n a b) ≤ bound && dev (mulArr n b a) ≤ bound
 
-/-- Laplace expansion along the first row (driver-side reference for the determinant tolerance test) -/
-def laplace (a : Array K) (n : Nat) : (fuel : Nat) → (row : Nat) → (cols : List Nat) → K
-  | 0, _, _ => 1
-  | fuel + 1, row, cols =>
-    if cols.isEmpty then 1 else
-    (cols.zipIdx.foldl (fun (acc : K × Bool) (c, _) =>
-      let sub := laplace a n fuel (row + 1) (cols.filter (· ≠ c))
-      let t := a.getD (row * n + c) 0 * sub
-      (if acc.2 then acc.1 - t else acc.1 + t, !acc.2)) ((0 : K), false)).1
+/-- Laplace expansion over column subsets (driver-side reference for the determinant tolerance test):
+`D[mask]` = determinant of the rows `0 .. popcount(mask)-1` restricted to the columns in `mask`; `O(2ⁿ n)` -/
+def laplace (a : Array K) (n : Nat) : K :=
+  let D := (List.range (2 ^ n)).foldl (fun (D : Array K) mask =>
+    if mask = 0 then D.push (1 : K) else
+      let r := (List.range n).foldl (fun k c => if mask.testBit c then k + 1 else k) 0 - 1
+      let st := (List.range n).foldl (fun (acc : K × Nat) c =>
+        if mask.testBit c then
+          let t := a.getD (r * n + c) 0 * D.getD (mask - 2 ^ c) 0
+          ((if (r + acc.2) % 2 = 1 then acc.1 - t else acc.1 + t), acc.2 + 1)
+        else acc) ((0 : K), 0)
+      D.push st.1) (#[] : Array K)
+  D.getD (2 ^ n - 1) (1 : K)
 
 /-- |det − reference| ≤ tol ∏ᵢ ‖rowᵢ‖₁ -/
 def detOk (mag : K → Float) (n : Nat) (a : Array K) (d : K) : Bool :=
-  let ref := laplace a n n 0 (List.range n)
+  let ref := laplace a n
   let had := ((List.range n).map fun i => fsum ((List.range n).map fun j => mag (a.getD (i * n + j) 0))).foldl (· * ·) 1.0
   mag (d - ref) ≤ tolOf n * had
 
 variable {Q : Type} [LT Q] [DecidableLT Q] [BEq Q] [OfNat Q 0]
 
-def fltCase (mag : K → Float) (absval : K → Q) (op rep : String) (n : Nat) (piv : Bool)
+def fltCase (mag : K → Float) (absval : K → Q) (op rep : String) (n : Nat) (piv : PivArg)
     (a : Array K) (b : Option (Array K)) : String :=
   let ok (t : Bool) : String := if t then "resid-ok" else "resid-bad"
   if rep == "diag" then
@@ -207,14 +208,14 @@ def fltCase (mag : K → Float) (absval : K → Q) (op rep : String) (n : Nat) (
   else
     let A : Mat n K := matOfArr n a
     match op, b with
-    | "solve", some b => match solveDense piv absval n A (vecOfArr n b) with
+    | "solve", some b => match solveDense piv absval A (vecOfArr n b) with
       | .ok x => ok (solveResidOk mag n a x.toArray b)
       | .fmatrixError => "ERR:FMatrix"
-    | "invert", none => match invertDense piv absval n A with
+    | "invert", none => match invertDense piv absval A with
       | .ok x => ok (invertResidOk mag n a x.toArray)
       | .fmatrixError => "ERR:FMatrix"
-    | "det", none => ok (detOk mag n a (detDense piv absval n A))
-    | "fmhinv", none | "fmhinvT", none => match fmhInvert (op == "fmhinvT") n A with
+    | "det", none => ok (detOk mag n a (detDense piv absval A))
+    | "fmhinv", none | "fmhinvT", none => match fmhInvertL (op == "fmhinvT") A with
       | some (d, l) =>
         let l' : Array K := if op == "fmhinvT" then
             ((List.range n).flatMap fun i => (List.range n).map fun j => l.toArray.getD (j * n + i) 0).toArray
@@ -239,10 +240,10 @@ def cxOfBits : List Int → Option (List Cx)
 def handle (line : String) : String :=
   match tokens line with
   | field :: op :: rep :: ns :: ps :: as :: rest =>
-    match ns.toNat?, ps.toNat?, parseIntList? as with
-    | some n, some p, some al =>
-      if n < 1 ∨ n > 12 ∨ p > 1 then "bad-op" else
-      let piv := p == 1
+    match ns.toNat?, PivArg.parse ps, parseIntList? as with
+    | some n, some piv, some al =>
+      -- n = 0 is not an admissible operand (DynamicMatrix::mat_cols asserts rows() > 0; FieldMatrix<K,0,0> is not used)
+      if n < 1 ∨ n > 12 then "bad-op" else
       let bl : Option (Option (List Int)) := match rest with
         | [] => some none
         | [bs] => (parseIntList? bs).map some
